@@ -31,6 +31,15 @@ def run(ctx: Ctx):
     _sitebase.floors(ctx, sa)
     _sitebase.report(ctx, sa, {"mapiter": "no-mapping-iteration", "kwsplat": "hook-ignores-unknown-keys"},
                      {"probe": "probe-hygiene", "mapiter": "no-mapping-iteration"})
+    # the per-class structure function: a wrapper the factory puts around it must hand the payload on as it came
+    # (an undeclared key must not be read as a declared one); decided by probing the wrapper in the factory fold
+    from .. import special
+    wrap = [p_ for p_ in special.factory_wiring(sa) if p_[0].startswith("structure-factory") and
+            p_[0].endswith(":wrapper")]
+    for construct, msg, ln in wrap:
+        ctx.fail("class-structure-fn-reads-declared-keys-only", construct, msg, P_HOOKS, ln)
+    if not wrap:
+        ctx.ok("class-structure-fn-reads-declared-keys-only")
     # (a) configuration
     cm = ConvertersModule(ctx.src)
     ctx.fn("converters.py:get_converter")
